@@ -359,6 +359,10 @@ class C10(Check):
                 if t < last:
                     V('L-feed', 'silent', 'order', f'update {k} at t={t} after t={last}')
                     return res
+                # every accepted step is fed: the solver stops at each sampling time, so no gap exceeds the sampling step
+                if k and t - last > cfg['m'] * dt * (1 + 1e-6) + 1e-12:
+                    V('L-feed', 'silent', 'gap', f'no history update between t={last} and t={t} (sampling step {cfg["m"] * dt})')
+                    return res
                 last = t
         # ---- L-pre / L-post: replay the log against RefHist
         rt, ry = [0.0], [y0v.copy()]
@@ -419,9 +423,16 @@ class C10(Check):
             ts = [0.0]
             ys = [dict(decl)]
 
+            # the history only holds the steps the solver has accepted so far and answers later times with the last of
+            # them ("the interpolated computed trajectory"): a delay shorter than the current solver step reads the state at
+            # the start of that step.  The reference reproduces this with the recorded acceptance times.
+            acc = [0.0] + [float(u[1]) for u in ups]
+
             def pastf(tnow):
+                cap = acc[max(bisect.bisect_left(acc, tnow - 1e-12) - 1, 0)]
+
                 def past(name, d):
-                    s = tnow - d
+                    s = min(tnow - d, cap)
                     if s <= 0:
                         return decl[name]
                     j = min(int(s / h + 1e-12), len(ys) - 1)
